@@ -13,21 +13,31 @@ PROP = dict(
     ],
     assumptions=[
         "dict keys of one dict are distinct values (arr.ai dicts built by a literal); descriptions of depth <= 3 with <= 3 entries per dict",
+        "Go enumerates a dict in hash order, the model in list order: inside the class aliasOrMissingParent the observable can depend on the "
+        "order, so those cases carry the known-finding class and any outcome is reported, not judged; outside the class the theorems hold "
+        "for every order",
+        "file contents up to 12 KiB (some generated files exceed 8 KiB and differ from the pre-existing file of equal length only in the last byte)",
         "element names in generated trees have equal length, so MemMapFs.RemoveAll's string-prefix deletion cannot reach a sibling "
         "('a' vs 'ab' is an afero defect, not arr.ai's)",
         "PATH itself is clean and absolute; its parent exists except in the no-parent scenes; ASCII names and text",
         "fault runs use descriptions that are valid on their tree, so the number of calls does not depend on Go's dict enumeration order; "
         "the observable of a run in which a fault fired is only whether the command failed",
     ],
-    level_text="Proof: 12 Lean theorems about a transliteration of pkg/arrai/out.go (outputValue, outputTupleDir and its entry switch, "
+    level_text="Proof: 24 Lean theorems about a transliteration of pkg/arrai/out.go (outputValue, outputTupleDir and its entry switch, "
                "configureOutput, applyIfExistsConfig with all five ifExists values, applyFilesFields, outputFile, getDirField, entryPath) "
-               "over a tree model of the file system with a fault oracle: on a valid description the run succeeds and the file system "
-               "is the old one with PATH replaced by Spec.apply (exact inside, untouched outside); on an invalid one, or an uncreatable "
-               "PATH, it fails and the file system is literally unchanged; the dry pass succeeds iff the description is valid and changes "
-               "nothing; file mode writes exactly the bytes or changes nothing; any failing file-system call makes the command fail. "
-               "The directory theorems are partial: they assume keys that name a single element (KF-out-key-with-separator, refuted at full "
-               "strength by three witness theorems). The model is tied to the repaired worktree by running both on generated descriptions x "
-               "pre-existing trees x fault positions on every run.",
+               "over a tree model of the file system with POSIX preconditions and a fault oracle. For EVERY description, keys that denote "
+               "paths of several elements included: the validation pass changes nothing and returns exactly Sem.dryDir (dry_exact); if every "
+               "entry in turn has its parent directories and can be written the run succeeds with Spec.apply (out_refines_seq); the entries "
+               "before a first entry with a missing parent are written exactly, then an I/O error (missing_parent_exact); aliasing entries "
+               "behave differently in the two enumeration orders (alias_order_matters). Outside the decidable class aliasOrMissingParent "
+               "(two sibling keys denote comparable paths, or a key's parent directory is absent when it is written) the property holds at "
+               "full strength: valid => success and the file system is the old one with PATH replaced by Spec.apply (exact inside, untouched "
+               "outside); invalid or uncreatable PATH => failure and the file system literally unchanged; dry pass ok iff valid; and every "
+               "violation of atomicity lies in the class (atomic_violations_in_class; three refutation witnesses, all in the class). "
+               "File mode writes exactly the bytes (empty content included) or, with PATH a directory / no parent directory / another kind of "
+               "result / unknown mode, changes nothing. Faults: any failing call makes the command fail; a run in which no fault fires is "
+               "identical to the fault-free run; whatever fails, nothing outside PATH is touched. The model is tied to /repo by running both "
+               "on generated descriptions x pre-existing trees x fault positions on every run.",
     design_ref="DESIGN.md section 6, C19",
     watch=["pkg/arrai.outputValue", "pkg/arrai.outputTupleDir", "pkg/arrai.outputFile", "pkg/arrai.configureOutput",
            "pkg/arrai.applyIfExistsConfig", "pkg/arrai.applyFilesFields", "pkg/arrai.getDirField", "pkg/arrai.entryPath",
